@@ -649,7 +649,7 @@ fn main() {
         let per = 10;
         for g in 0..gens {
             let mut src = proggen::package_prelude();
-            for k in 0..per { src.push_str(&proggen::gen_program(&mut r, g * per + k, false, false).to_sw()); }
+            for k in 0..per { src.push_str(&proggen::gen_plain_program(&mut r, g * per + k).to_sw()); }
             if let Some(p) = src_pkg_template(&format!("c07gen{g}"), &src, &scratch) { pkgs.push(p) }
         }
         let pws = if no_gen { 0 } else if thorough { 4 } else { 1 };
